@@ -624,6 +624,50 @@ func c06c(c *Ctx) {
 	if addFn == nil || addImp == nil {
 		return
 	}
+	// what is merged into an accumulator must still be on its way out: the receiver of an add is,
+	// after that add, returned by the function, registered, or merged into another accumulator
+	// (adding into one whose content was already handed on loses what is added)
+	{
+		nAdds := 0
+		for _, fn := range c.W.FuncsOf("parser") {
+			if isTestFunc(c.W, fn) || len(fn.Blocks) == 0 || fn == addFn {
+				continue
+			}
+			for _, ci := range callsToIn(fn, addFn) {
+				recv := ci.Common().Args[0]
+				nAdds++
+				live := false
+				// returned
+				for _, r := range returnsOf(fn) {
+					for _, res := range r.Results {
+						var leaves []ssa.Value
+						phiLeaves(res, map[ssa.Value]bool{}, &leaves)
+						for _, lf := range leaves {
+							if lf == recv {
+								live = true
+							}
+						}
+					}
+				}
+				// merged or registered later
+				for _, cj := range callsIn(fn) {
+					if cj == ci {
+						continue
+					}
+					g := callee(cj)
+					if g != addFn && g != addImp {
+						continue
+					}
+					args := cj.Common().Args
+					if args[len(args)-1] == recv && canReach(ci.(ssa.Instruction), cj.(ssa.Instruction)) {
+						live = true
+					}
+				}
+				c.Check(live, fmt.Sprintf("add-into-a-live-accumulator/%s@%d", fn.Name(), c.T(fn).callOrd[ci]), c.W.Pos(ci.Pos()), "the accumulator that is added to is returned or merged further afterwards", fn.Name()+" adds hoisted data into "+pretty(c.term(fn, recv))+", which is neither returned nor merged into anything after this point: the inline texts / movements that are added are lost (their commands keep an empty argument)")
+			}
+		}
+		c.Check(nAdds >= 15, "add-into-a-live-accumulator/census", "-", fmt.Sprintf("%d merges of hoisted data followed", nAdds), fmt.Sprintf("only %d calls of impData.add found", nAdds))
+	}
 	// lemma: add appends both lists of the argument to the receiver
 	{
 		okT, okM := false, false
